@@ -8,6 +8,7 @@ import (
 	"strings"
 
 	"github.com/onflow/cadence/ast"
+	"github.com/onflow/cadence/common"
 	"github.com/onflow/cadence/interpreter"
 	"github.com/onflow/cadence/sema"
 
@@ -148,6 +149,11 @@ func wrappable(t sema.Type) bool {
 		return false
 	}
 	if _, ok := t.(*sema.FunctionType); ok {
+		return false
+	}
+	// contract values are not wrapped: copying a contract value into a container is exotic and changes the number of
+	// temporary slabs differently per engine (finding FF10)
+	if ct, ok := t.(*sema.CompositeType); ok && ct.Kind == common.CompositeKindContract {
 		return false
 	}
 	s := t.QualifiedString()
